@@ -5,9 +5,13 @@ C13 — version information is reported completely and unaltered.
 Property theorems only; helper lemmas are in Lemmas/Version*.lean.
 
 Model: `Model/Version.lean` (src/resources/version_info.rs as of the commit that clamps the key
-padding in `parse_tlv`).  Specification: `Spec/Version.lean` (documented VS_VERSIONINFO layout, reference
+padding in `parse_tlv`; indexing and slicing are the panicking operations of a checked build).  Specification: `Spec/Version.lean` (documented VS_VERSIONINFO layout, reference
 writer `encode`, abstract content).  All statements quantify over every word list / every abstract
 resource; no size bound.
+
+The queries against the abstract content (`Spec.stringsOf`, `valueOf`, `stringMapsOf`, …) and the
+round trips for every documented layout (`Spec.VInfo.IsBlock`, not only the reference writer's image)
+are in `Thm/C13Queries.lean`.
 
 (a) round trip      C13_round_trip, C13_writer_emits_u16, C13_strings_exactly_once, C13_fixed_round_trip, C13_translation_round_trip
 (b) one event list  C13_visit_is_fold_of_events, C13_queries_are_folds, C13_source_renders_every_event,
